@@ -117,8 +117,20 @@ def run_unit(unit) -> Dict[str, Any]:
     return out.result()
 
 
-def _viol(out, pid, check, symptom, site, c, lay, desc, detail, vec=None, extra=None):
-    out.violation(check=check, symptom=symptom, site=site, features=case_features(c, lay),
+def default_or_explains(leaves, expected, got) -> bool:
+    """True when every differing leaf is an enum whose first declared member is non-zero and
+    the decoded value is (encoded value | that member) - the signature of finding N3."""
+    diff = False
+    for l, e, g in zip(leaves, expected, got):
+        if e != g:
+            diff = True
+            if not (l.kind == "enum" and l.enum.members and l.enum.members[0][1] != 0 and g == (e | l.enum.members[0][1])):
+                return False
+    return diff
+
+
+def _viol(out, pid, check, symptom, site, c, lay, desc, detail, vec=None, extra=None, more=()):
+    out.violation(check=check, symptom=symptom, site=site, features=case_features(c, lay) + list(more),
                   desc="%s :: %s" % (c.desc, desc), detail=detail,
                   schema=schema_text(c), value=vec,
                   replay=dict(kind="pycodec", pid=pid, case=pack(c), vec=vec, extra=extra))
@@ -233,7 +245,8 @@ def _run_case(pid, tier, c: scope.Case, mod, out: UnitOut):
             if back != list(vec):
                 bad = [(l.path, v, b) for l, v, b in zip(leaves, vec, back) if v != b][:4]
                 _viol(out, pid, "decode", "wrong_value", "lib/py/bitprotolib/bp.py:decode", c, lay,
-                      "vec=%s decoded=%s" % (vec, back), "first differing leaves (path, encoded, decoded): %r" % (bad,), vec)
+                      "vec=%s decoded=%s" % (vec, back), "first differing leaves (path, encoded, decoded): %r" % (bad,), vec,
+                      more=["explained_by:enum_default_or"] if default_or_explains(leaves, vec, back) else [])
             elif again != expect:
                 _viol(out, pid, "reencode", "wrong_bytes", "lib/py/bitprotolib/bp.py:encode", c, lay,
                       "vec=%s bytes=%s re-encoded=%s" % (vec, expect.hex(), again.hex()), "", vec)
@@ -249,7 +262,8 @@ def _run_case(pid, tier, c: scope.Case, mod, out: UnitOut):
                 out.count("transitions", 2)
                 if back3 != list(vec):
                     _viol(out, pid, "roundtrip", "wrong_value", "lib/py/bitprotolib/bp.py:decode", c, lay,
-                          "vec=%s decode(encode(v))=%s" % (vec, back3), "", vec)
+                          "vec=%s decode(encode(v))=%s" % (vec, back3), "", vec,
+                          more=["explained_by:enum_default_or"] if default_or_explains(leaves, vec, back3) else [])
             except Exception as e:
                 _viol(out, pid, "roundtrip", type(e).__name__, repo_site(e), c, lay, "encode/decode raised", exc_summary(e), vec)
             if first:
@@ -300,7 +314,7 @@ def _run_history(pid, tier, c, mod, hist, out, cases):
         out.count("traces")
         if got is not None:
             _viol(out, pid, "history", got[0], "history", c, lay, "history %s vec=%s: %s" % (hist, vec, got[1]), got[1], vec,
-                  extra=dict(history=hist))
+                  extra=dict(history=hist), more=["explained_by:enum_default_or"] if (len(got) > 2 and got[2]) else [])
 
 
 def _play(hist, cls, other, leaves, vec, other_vec, c, lay, expect, pid):
@@ -348,7 +362,7 @@ def _play(hist, cls, other, leaves, vec, other_vec, c, lay, expect, pid):
                 m2.decode(bytearray(last))
                 back = get_vec(m2, leaves)
                 if back != list(vec):
-                    return ("wrong_value", "decoded %s" % (back,))
+                    return ("wrong_value", "decoded %s" % (back,), default_or_explains(leaves, vec, back))
         elif ev == "decode_other":
             try:
                 o.decode(bytearray(ref.encode(c.msg, other_vec, lay)))
@@ -369,7 +383,7 @@ def _play(hist, cls, other, leaves, vec, other_vec, c, lay, expect, pid):
             o.decode(bytearray(expect))
             back = get_vec(o, leaves)
             if pid == "C02" and back != list(vec):
-                return ("wrong_value", "first-use decode gave %s" % (back,))
+                return ("wrong_value", "first-use decode gave %s" % (back,), default_or_explains(leaves, vec, back))
             again = bytes(o.encode())
             if again != expect:
                 return ("wrong_bytes", "first-use decode then encode: expected %s observed %s" % (expect.hex(), again.hex()))
@@ -450,7 +464,7 @@ def replay(payload) -> int:
                 except Exception as e:
                     got = (type(e).__name__, exc_summary(e))
             if got is not None:
-                print("REPRODUCED: %s %s" % got)
+                print("REPRODUCED: %s %s" % tuple(got[:2]))
                 return 1
         ms.unload()
     if out.violations:
